@@ -562,7 +562,8 @@ pub fn gen_char(rng: &mut Rng, o: &RecOpts, allow_reserved: bool) -> char {
     match o.model {
         Model::Common => *rng.pick(&['A', 'C', 'G', 'T', 'x', 'y', '1']),
         Model::Bcf => match rng.below(10) {
-            0 | 1 => *rng.pick(&[';', '=', ':']),
+            0 => *rng.pick(&['\u{e9}', '\u{141}', '\u{3b1}', '\u{7ff}', '\u{800}', '\u{4e2d}', '\u{fffd}', '\u{10000}']),
+            1 => *rng.pick(&[';', '=', ':']),
             2 => ' ',
             _ => *rng.pick(PLAIN_CHARS),
         },
